@@ -25,6 +25,7 @@ type tupleSpace struct {
 	Sig         func(t map[string]any, ev map[string]any, detail string) (sigs []string, msg string)
 	NonTrivial  func(t map[string]any, ev map[string]any) bool
 	SampleEvery int
+	Keep        func(ev map[string]any) bool // events that are not kept (tuple not applicable: setup impossible) are left out of the trace
 	Extra       map[string][]byte
 }
 
@@ -59,6 +60,15 @@ func (ts tupleSpace) run(c *core.Ctx) (tuples, events []map[string]any) {
 	if len(events) != len(tuples) {
 		c.Broken("executed %d of %d tuples", len(events), len(tuples))
 		return
+	}
+	if ts.Keep != nil {
+		kt, ke := tuples[:0:0], events[:0:0]
+		for i, ev := range events {
+			if ts.Keep(ev) {
+				kt, ke = append(kt, tuples[i]), append(ke, ev)
+			}
+		}
+		tuples, events = kt, ke
 	}
 	var trace bytes.Buffer
 	every := ts.SampleEvery
